@@ -1,6 +1,6 @@
 """C14 — the comparable key sorts bytewise exactly as compare orders documents."""
 from .. import gen
-from . import common
+from . import common, sizes
 from .C04 import py_cmp, mutate, NAMES, rank
 
 SPEC_THEOREM = 'Props/C14: refuted in general (witness classes); embedding proved on the class key_safe_doc, containers included (C14_container_keys_order_as_compare)'
@@ -128,6 +128,19 @@ def generate(ctx):
         ids = (ctx.add('convert_to_comparable %s' % ea).id, ctx.add('convert_to_comparable %s' % eb).id,
                ctx.add('compare %s %s' % (ea, eb)).id)
         ctx.pairs.append((a, b, ids))
+    # strings / keys of 255 .. 65536 bytes and containers of 255 .. 1000 members against copies that differ at the very end
+    # (sizes.py; second review H2): the keys must order them as compare does (all of them are inside the proved class)
+    for lab, v in sizes.string_docs() + sizes.container_docs():
+        for m in sizes.end_mutants(v)[:1 if lab.startswith(('obj1000', 'arr1000')) else 3]:
+            if m[0] == 's':
+                try:
+                    m[1].decode('utf-8')
+                except UnicodeDecodeError:
+                    continue
+            ea, eb = gen.hexarg(gen.enc(v)), gen.hexarg(gen.enc(m))
+            ids = (ctx.add('convert_to_comparable %s' % ea).id, ctx.add('convert_to_comparable %s' % eb).id,
+                   ctx.add('compare %s %s' % (ea, eb)).id)
+            ctx.pairs.append((v, m, ids))
     # the byte walker on buffers that are NOT valid encodings (prefixes, one byte changed): tie only (ComparableWalk.v
     # models the early returns and the panics of convert_to_comparable on such buffers)
     small = [v for v in ds if len(gen.enc(v)) <= 100]
